@@ -35,6 +35,7 @@ type Val struct {
 	Tup   []Val
 	Elems []Val // static contents of a slice built from a local array
 	Static *Val  // for an element address: the statically known content
+	Pooled bool  // value obtained from sync.Pool.Get
 	Emb   bool   // interior reference of an inline struct (never nil)
 	Iter  string // state component holding the visited set of a map iterator
 	Off   string // element offset of a sub-slice s[lo:] (translator-level; such values must not escape)
@@ -142,6 +143,7 @@ type Engine struct {
 	conc     bool
 
 	objInvs       map[string]bool
+	putType       map[string]*boxed
 	nGlobals      int
 	usedLemmas    map[string]bool
 	ordinals      map[string]int
@@ -181,6 +183,7 @@ func (x *Engine) reset(fn string) {
 	x.usedContracts = map[string]bool{}
 	x.ordinals = map[string]int{}
 	x.nGlobals = 0
+	x.putType = nil
 	x.objInvs = map[string]bool{}
 	if x.usedLemmas == nil {
 		x.usedLemmas = map[string]bool{}
